@@ -161,11 +161,9 @@ impl EnfGroup {
                 }
                 // signature variant: mostly all genuine; else one of the defective lists
                 let v = if rng.chance(2, 3) { 1 } else { *rng.pick(&[0u64, 2, 3, 4, 5, 6, 7, 8]) };
-                // fact 3 = signatures fine, but the payment check that follows them refuses (approval gone)
-                let mut fact = sig_fact(v, content_htlc_total(c));
-                if fact == 1 && !w.outgoing_ok(&offered_of(c)) {
-                    fact = 3;
-                }
+                // raw per-signature facts + the verdict of the payment check that follows the signature check; what
+                // the signer's loop makes of them is computed by the model (`sigFactOf`)
+                let fact = sig_token(v, content_htlc_total(c), w.outgoing_ok(&offered_of(c)));
                 let p = if content_policy_ok(c, n) { 1 } else { 0 };
                 if kind == "validate" {
                     format!("validate {} {} {} {} {} {}", n, c, fact, p, rng.range(1, 2), v)
@@ -337,6 +335,9 @@ impl Group for EnfGroup {
             return v;
         }
         let mut v = vec![
+            // raw per-signature facts (round 8): 3 HTLCs with a short list (index panic), a wrong middle signature, a
+            // surplus signature (ignored), all genuine; the model computes the outcome from the bits
+            f("setup|validate 0 0 r1:0::1 1 2 1|activate|validate 1 6 r1:3:11:1 1 2 6|restart|validate 1 6 r1:3:101:1 1 2 3|revoke 1 1|validate 1 6 r0:3:111:1 1 1 0|validate 1 6 r1:3:1110:1 1 2 7|revoke 1 1|getsecret 0"),
             // happy path with every disclosure route, then the u64 edge requests
             f("getsecret 0|getsecretnone 0|hgetpoint 4 1|setup|validate 0 0 1 1 2|activate|validate 1 1 1 1 1|getsecret 0|revoke 1|getsecret 0|getsecretnone 0|getsecret 1|validate 2 2 1 1 2|hrevoke 6 1|hgetpoint 4 3|hgetpoint 4 4|restart|getsecret 1|getsecret 2|revoke 18446744073709551615|getsecret 18446744073709551615|getsecret 18446744073709551614|getsecretnone 18446744073709551615|getsecretnone 18446744073709551614|hrevoke 6 18446744073709551614|revoke 18446744073709551614|hgetpoint 4 18446744073709551615|getsecret 1|getsecret 2|hrevoke 6 18446744073709551615|restart|getsecret 1"),
             // F13 witness (fixed by 0078200): u64::MAX / u64::MAX-1 against the secret-release guards
